@@ -138,6 +138,12 @@ def judge(ctx, trace_path, max_rejections=8, timeout=1800):
         sig = "%s:rejected:%s" % (MODULE, ev.get("ev"))
         if ev.get("ev") == "Query":
             sig += ":" + shape(ev)
+            # a query that ran while a flush of the queried family was in progress (known finding C11-K8: the family
+            # hands out the new file AND the not yet dropped memory database between the two steps of the flush)
+            if ev.get("window") == "after-commit":
+                sig += ":flush-commit-window"
+            elif ev.get("conc"):
+                sig += ":concurrent-with-flush"
         stats["marked"].append(ev.get("n"))
         ctx.violation(sig, "no reference answer and no named deviation explains line %d of the sub-trace: %s -> %s" % (
             rel, ev.get("sql", ""), json.dumps(ev.get("res", ev))[:400]), replay_lines=bad[: rel])
